@@ -20,7 +20,7 @@ def instances(tier):
     n = 0
     for (s, e, f) in windows(tier):
         n += 1
-        yield f'win{s}-{e}-{f}', dict(BASE, max_len=3 if tier == 'quick' else 3, win_start=s, win_end=e, fill=f), 'AlphaC03', None
+        yield f'win{s}-{e}-{f}', dict(BASE, max_len=3 if tier == 'quick' else 3, win_start=s, win_end=e, fill=f, cli_sample=24 if tier == 'quick' else 60), 'AlphaC03', None
     # a window that extends beyond the address space (5-bit addresses, GLOBAL = 0..31) and beyond a redefined GLOBAL
     yield 'beyond-space', dict(BASE, addr_bits=5, max_len=2 if tier == 'quick' else 3, win_start=27, win_end=38, fill=170), 'AlphaC03', None
     yield 'beyond-global', dict(BASE, addr_bits=16, max_len=2 if tier == 'quick' else 3, win_start=10, win_end=25, fill=0, origin=4,
@@ -42,7 +42,7 @@ def run(chk):
     chk.rule = ('for each window (start, end|none, fill) TLC enumerates every program up to MaxLen lines over AlphaC03 (data of '
                 '1,3,4 bytes, fills incl. zero-length, origins, muted regions, zone switch, alignment, trailing label, a '
                 'predefined data block at 6..7) and checks WindowFaithful and MemIsUnmutedBytes on the specification; every '
-                'scenario is assembled by the real code with -s/-e/-f and the whole image compared byte for byte; AlphaC03long (fills of 18 and 33 bytes) is run at verbosity 0..3. '
+                'scenario is assembled by the real code with -s/-e/-f and the whole image compared byte for byte (a sample of every window also through the command line front end); AlphaC03long (fills of 18 and 33 bytes) is run at verbosity 0..3. '
                 'Non-trivial = contains a byte-producing line; distinct by (program, window).')
     chk.rule += (' Code -> specification: the repository example programs (real ISAs, up to 36 KB images) and seeded random rich '
                  'carrier programs are assembled with the verification hooks on; every recorded pass-1 / pass-2 event and the image read '
